@@ -61,6 +61,25 @@ def buffer_configs(tier):
     return out
 
 
+def restart_configs(tier):
+    """A graceful shutdown (which bounds its own retries) whose final commit is rejected or succeeds, then the same
+    consumer is started again: the configured retry policy (unlimited, or its own limit) applies again."""
+    out = []
+    for limit, commit_mode in itertools.product([0, 3], [None, {"api": 8, "err": 22, "budget": 2},
+                                                          {"api": 8, "silent": True, "budget": 2}]):
+        cl = dict(CLUSTER, coordinator=1)
+        if commit_mode:
+            cl["modes"] = [commit_mode]
+        cons = {"buffer_size": 200, "request_retry_init_delay": 0.1, "request_retry_max_delay": 0.15,
+                "request_retry_max_attempts": limit, "auto_commit_every_n": 0, "auto_commit_every_ms": 0}
+        out.append({"cluster": cl, "discovery": False, "log": LOG, "magic": 0, "start": "earliest", "group": True,
+                    "processor": "sync", "consumer": cons,
+                    "script": [["start"], ["shutdown", {"delivered": 3}], ["restart", 1001, {"stopped": True}]],
+                    "menu": {"err": {"1": [6]}, "silent": True}, "timeout_ms": 2000, "horizon_s": 400,
+                    "expect_start_failure": True})
+    return out
+
+
 RULE = ("retry words: every sequence of answers {ok, error 6, out-of-range, silent->timeout, drop} to the consumer's "
         "successive ListOffsets/Fetch requests with at most 3 (quick) / 5 (thorough) failures, for init/max delay "
         "{(0.1, 0.15), (1, 30)} x attempt limit {0,1,2,3} x reset policy {None, earliest, latest} x start {earliest, "
@@ -72,17 +91,20 @@ RULE = ("retry words: every sequence of answers {ok, error 6, out-of-range, sile
         "delivery completes once faults cease; out-of-range fails start() iff the policy is None, otherwise the next "
         "fetch is at the resolved earliest/latest offset; fetch sizes follow x16 up to 1 MiB then x2, capped at the "
         "maximum; start() fails with ConsumerFetchSizeTooSmall only if the maximum is smaller than the message; the big "
-        "message is delivered, never skipped.")
+        "message is delivered, never skipped.  shutdown-then-restart: the same words after a graceful shutdown (final "
+        "commit accepted, rejected twice or unanswered twice) followed by start() on the same Consumer, limit {0, 3}.")
 ASSUME = ["SimCluster cuts fetch answers at max_bytes", "1 broker, 3-message log"]
 
 
 def run(tier, seed, only=None):
     if tier == "quick":
         plans = [("retry-words-3", word_configs(tier), (3, 0, 3)),
-                 ("buffer-grid", buffer_configs(tier), (0, 0, 0))]
+                 ("buffer-grid", buffer_configs(tier), (0, 0, 0)),
+                 ("shutdown-then-restart", restart_configs(tier), (3, 0, 3))]
     else:
         plans = [("retry-words-5", word_configs(tier), (5, 0, 5)),
-                 ("buffer-grid-1fault", buffer_configs(tier), (1, 0, 1))]
+                 ("buffer-grid-1fault", buffer_configs(tier), (1, 0, 1)),
+                 ("shutdown-then-restart", restart_configs(tier), (5, 0, 5))]
     if only:
         plans = [p for p in plans if p[0] in only]
     return _dfs.run_plans(PROPERTY, SPEC, plans, seed, RULE, ASSUME, max_steps=300)
